@@ -98,13 +98,13 @@ CHECKS = {
     "C07": dict(
         level="exploration",
         parts=[dict(harness="chk_C07", variant="seq", src="checks/chk_C07.cpp",
-                    runs=dict(quick=800, thorough=40000), wall_cap=dict(quick=150, thorough=2400))],
+                    runs=dict(quick=4000, thorough=80000), wall_cap=dict(quick=150, thorough=2400))],
         rule=("one case = generated small problem (scanner, image, Poisson-like data, additive term on/off, symmetries on/off, number of "
               "subsets, start subset, subset sensitivities on/off, save interval, 1..3 full iterations) and one class: formula (EM step on "
               "the explicit matrix after every sub-iteration, non-negativity, monotone likelihood and count preservation for one subset); "
               "crash (process dies at a write call drawn over ALL write calls of the run, lost / torn / complete, up to 3 crashes, restart "
               "from the newest iterate the library accepts, optionally re-using sensitivity files); resume_fresh / resume_reuse (same "
-              "objective function object) / resume_default at a drawn saved sub-iteration k; transparent short/EINTR I/O.  Resumed runs "
+              "objective function object) / resume_same (same reconstruction object, second set_up) / resume_default at a drawn saved sub-iteration k; transparent short/EINTR I/O.  Resumed runs "
               "are compared bitwise with the uninterrupted run's iterate files.  Non-trivial: every run; distinct = event-log hash."),
         components=dict(real=REAL_COMMON + ["OSMAPOSLReconstruction, IterativeReconstruction loop and saving, objective function, projectors, "
                                             "InterfileOutputFileFormat, read_from_file"],
@@ -117,12 +117,12 @@ CHECKS = {
     "C08": dict(
         level="exploration",
         parts=[dict(harness="chk_C08", variant="seq", src="checks/chk_C08.cpp",
-                    runs=dict(quick=800, thorough=40000), wall_cap=dict(quick=150, thorough=2400))],
+                    runs=dict(quick=4000, thorough=80000), wall_cap=dict(quick=150, thorough=2400))],
         rule=("as C07 with OSSPS: generated problem, relaxation (alpha, gamma), upper bound, quadratic prior on/off with penalisation "
               "factor, and one class: formula (clamp(lambda + zeta N grad_S Phi / D, 0, upper bound) on the explicit matrix after every "
               "sub-iteration, iterates within [0, upper bound]); crash at a write call drawn over all write calls incl. the "
-              "precomputed-denominator file; resume_fresh / resume_reuse / resume_default at a drawn saved k; transparent short/EINTR I/O.  "
-              "Non-trivial: every run; distinct = event-log hash."),
+              "precomputed-denominator file; resume_fresh / resume_reuse / resume_same (same reconstruction object) / resume_default at a drawn saved k; transparent "
+              "short/EINTR I/O.  Non-trivial: every run; distinct = event-log hash."),
         components=dict(real=REAL_COMMON + ["OSSPSReconstruction, IterativeReconstruction loop and saving, objective function incl. approximate "
                                             "Hessian, QuadraticPrior (gradient and surrogate curvature taken from the library), projectors, Interfile output"],
                         stub=STUB_IO + ["explicit system matrix (reference)"]),
